@@ -112,6 +112,10 @@ def select(pred, rxns):
         return [bool(r["inact_reac"] or r["inact_prod"]) for r in rxns]
     if kind == "parity":
         return [i % 2 == pred[1] for i in range(len(rxns))]
+    if kind == "mask":             # arbitrary extension by position (16-bit pattern, repeated)
+        return [bool((pred[1] >> (i % 16)) & 1) for i in range(len(rxns))]
+    if kind == "index_lt":
+        return [i < pred[1] for i in range(len(rxns))]
     if kind == "all":
         return [True] * len(rxns)
     return [False] * len(rxns)      # "none"
@@ -124,7 +128,9 @@ def preds(keys):
         st.tuples(st.just("has"), st.sampled_from(keys)).map(list),
         st.tuples(st.just("order"), G.ints(0, 4)).map(list),
         st.tuples(st.just("nkeys_le"), G.ints(1, 3)).map(list),
-        st.just(["inactive"]), st.just(["all"]), st.just(["none"]))
+        st.just(["inactive"]), st.just(["all"]), st.just(["none"]),
+        st.tuples(st.just("mask"), G.ints(0, 2 ** 16 - 1)).map(list),
+        st.tuples(st.just("index_lt"), G.ints(0, 12)).map(list))
 
 
 def pred_callable(sel, objs):
@@ -465,7 +471,17 @@ def ops_cases(draw):
             _copy_stoich(draw, c, earlier[len(earlier) - 1 - draw(G.ints(0, len(earlier) - 1))])
         G.dedupe_params(c["rxns"])
         more.append(c)
-    return {"a": a, "b": b, "pred": draw(preds(a["subs"])), "extra": extra, "more": more}
+    # twins: some reactions of a once more as *distinct objects that compare equal* (same stoichiometry and parameter,
+    # other name / ref / data); the system that holds both is made by +, += or by the constructor with the duplicate
+    # check switched off; the predicate separates reactions by name / ref / data / identity with an arbitrary extension
+    na = len(a["rxns"])
+    tw = sorted(set(G.pick_distinct(draw, list(range(na)), 1, 3)))
+    how = G.pick(draw, ["add_system", "add_reactions", "iadd_system", "ctor_checks_empty", "ctor_dont_check_duplicate"])
+    n = na + len(tw)
+    order = G.permutation(draw, list(range(n))) if how.startswith("ctor") and draw(G.ints(0, 1)) else list(range(n))
+    twins = {"idx": tw, "how": how, "order": order, "by": G.pick(draw, ["name", "identity", "ref", "data"]),
+             "sel": [bool(draw(G.ints(0, 1))) for _ in range(n)]}
+    return {"a": a, "b": b, "pred": draw(preds(a["subs"])), "extra": extra, "more": more, "twins": twins}
 
 
 def _build(sysd):
@@ -656,6 +672,67 @@ def check_ops(case, ctx):
         if check_concatenate(ctx, [x[0] for x in built], [x["rxns"] for x in operands[:n]], [x[1] for x in built],
                              [x["subs"] for x in operands[:n]], tag="" if n == 2 else ":many") is None:
             return
+    if case.get("twins"):
+        check_twins(ctx, a, case["twins"])
+
+
+def _tagged(desc, tag):
+    """A fresh Reaction for the description with its own name, ref and data (none of which enter Reaction.__eq__)."""
+    o = G.build_reaction(desc, 0)
+    o.name, o.ref, o.data = "rxn_" + tag, {"doi": "10.0/" + tag}, {"tag": tag}
+    return o
+
+
+def check_twins(ctx, a, tw):
+    """subset() on a system that holds reactions which compare equal but are different objects: both parts hold
+    exactly the objects the predicate says (model: identities)."""
+    from chempy import ReactionSystem
+    ao = [_tagged(r, "a%d" % i) for i, r in enumerate(a["rxns"])]
+    to = [_tagged(a["rxns"][i], "t%d" % i) for i in tw["idx"]]
+    tdescs = [a["rxns"][i] for i in tw["idx"]]
+    how = tw["how"]
+    ctx.label("twins:how=" + how, "twins:by=" + tw["by"])
+    dup = {"checks": ()} if has_duplicates(a["rxns"]) else {}
+    if how == "add_system":
+        S = ReactionSystem(ao, list(a["subs"]), **dup) + ReactionSystem(to, list(a["subs"]),
+                                                                          **({"checks": ()} if has_duplicates(tdescs) else {}))
+    elif how == "add_reactions":
+        S = ReactionSystem(ao, list(a["subs"]), **dup) + to
+    elif how == "iadd_system":
+        S = ReactionSystem(ao, list(a["subs"]), **dup)
+        S += ReactionSystem(to, list(a["subs"]), **({"checks": ()} if has_duplicates(tdescs) else {}))
+    descs, objs = a["rxns"] + tdescs, ao + to
+    if how.startswith("ctor"):
+        descs, objs = [descs[i] for i in tw["order"]], [objs[i] for i in tw["order"]]
+        kw = {"checks": ()} if how == "ctor_checks_empty" else {"dont_check": {"duplicate"}}
+        S = ReactionSystem(objs, list(a["subs"]), **kw)
+    if not check_members(ctx, S, a["subs"], objs, "twins:system"):
+        return
+    sel = list(tw["sel"])
+    by = tw["by"]
+    acc = [o for o, f in zip(objs, sel) if f]
+    if by == "identity":
+        keep = set(id(o) for o in acc)
+        fn = lambda r: id(r) in keep                                   # noqa: E731
+    elif by == "name":
+        keep = set(o.name for o in acc)
+        fn = lambda r: r.name in keep                                  # noqa: E731
+    elif by == "ref":
+        keep = set(o.ref["doi"] for o in acc)
+        fn = lambda r: r.ref["doi"] in keep                            # noqa: E731
+    else:
+        keep = set(o.data["tag"] for o in acc)
+        fn = lambda r: r.data["tag"] in keep                           # noqa: E731
+    # a twin pair is separated when the predicate accepts exactly one of two equal reactions
+    tags = {}
+    for o, f in zip(objs, sel):
+        tags.setdefault(o.data["tag"][1:], set()).add(f)
+    separated = any(len(v) == 2 for v in tags.values())
+    ctx.label("twins:separated" if separated else "twins:same_side")
+    yes, no = S.subset(fn)
+    if not check_subset_result(ctx, a["subs"], descs, objs, sel, yes, no, tag=":twins"):
+        return
+    check_members(ctx, S, a["subs"], objs, "subset:parent_changed:twins")
 
 
 # ---------------------------------------------------------------------------
@@ -1058,6 +1135,33 @@ def apply_op(state, op, ctx):
             e2 = _entry(state, dups, list(dups.substances.keys()), dup_rids)
             _verify(state, e2, ctx, "concatenate:duplicates")
         return
+    if kind == "twin":
+        # the reactions of a once more as fresh objects that compare equal (same description), together with the
+        # originals in one system: by + (reactions / system) or by the constructor with the duplicate check off
+        descs = _descs(state, a)
+        if not descs or len(descs) > MAX_CONCAT_RXNS // 2:
+            return
+        from chempy import ReactionSystem
+        rids = _register(state, [dict(d) for d in descs])
+        new = [state["reg"][i] for i in rids]
+        how = op[2] % 4
+        ctx.label("op:twin", "op:twin_how=%d" % how)
+        state["after_add"] = True
+        all_rids = a["rids"] + rids
+        if how == 0:
+            res = a["obj"] + new
+        elif how == 1:
+            res = a["obj"] + ReactionSystem(new, list(a["subs"]), checks=())
+        else:
+            # original and twin next to each other
+            all_rids = [x for pair in zip(a["rids"], rids) for x in pair]
+            kw = {"checks": ()} if how == 2 else {"dont_check": {"duplicate"}}
+            res = ReactionSystem([state["reg"][i] for i in all_rids], list(a["subs"]), **kw)
+        if not _verify(state, a, ctx, "twin:operand_changed", structure=False):
+            return
+        e = _entry(state, res, a["subs"], all_rids)
+        _verify(state, e, ctx, "twin")
+        return
     if kind == "subset":
         descs, objs = _descs(state, a), _objs(state, a)
         fn, sel = pred_callable(select(op[2], descs), objs)
@@ -1164,6 +1268,10 @@ def machine(ctx):
         def concat_many(self, i, js):
             self._do(["concat", i] + js)
 
+        @rule(i=G.ints(0, 7), how=G.ints(0, 3))
+        def twin(self, i, how):
+            self._do(["twin", i, how])
+
         @rule(i=G.ints(0, 7), keep=G.ints(0, 1), data=st.data())
         def subset(self, i, keep, data):
             self._do(["subset", i, data.draw(preds(self._keys(i))), keep])
@@ -1211,7 +1319,9 @@ SUBCHECKS = [
     SubCheck("ops", check_ops, strategy=ops_cases(), quick=500, thorough=40000,
              rule="subset(pred), system+system, system+reactions, +=, concatenate on a generated pair of overlapping systems; "
                   "concatenate also over 3-5 systems whose later operands repeat stoichiometries of any earlier operand "
-                  "(mostly of another later one), once or twice"),
+                  "(mostly of another later one), once or twice; subset on a system that holds 1-3 reactions twice as distinct "
+                  "objects that compare equal (other name / ref / data; made by +, += or the constructor with checks=() / "
+                  "dont_check={'duplicate'}) with a predicate on name / ref / data / identity of arbitrary extension"),
     SubCheck("convert", check_convert, strategy=convert_cases(), quick=400, thorough=20000,
              rule="as_per_substance_array/dict, as_substance_index, per_substance_varied in substance order"),
     SubCheck("bounds", check_bounds, strategy=bounds_cases(), quick=600, thorough=50000,
@@ -1219,7 +1329,9 @@ SUBCHECKS = [
                   "along an exact null-space direction of the composition matrix stays below the bound",
              tolerances={"bound_rel": 1e-12}),
     SubCheck("machine", machine=machine, quick=300, thorough=20000, steps=(20, 40),
-             rule="histories of new / += reactions / += system / + / subset / split->part / concatenate (2-5 operands) over a pool of "
+             rule="histories of new / += reactions / += system / + / twin (equal copies as distinct objects, via + or the "
+                  "constructor without duplicate check) / subset (also by position = identity) / split->part / concatenate "
+                  "(2-5 operands) over a pool of "
                   "systems; model = ordered substance keys + list of reaction ids; every result and its structural "
                   "queries are checked"),
 ]
